@@ -154,6 +154,7 @@ type FPProbe struct {
 	IHL    int    `json:"ihl"`
 	Relay  bool   `json:"relay"` // giaddr + option 82 circuit-id
 	Bcast  bool   `json:"bcast"`
+	Ci     bool   `json:"ci"`     // ciaddr carries the client's own (last ACKed) address
 	Layout string `json:"layout"` // "first" (53 first) | "pad" (one pad byte before 53)
 }
 
@@ -166,6 +167,7 @@ func fpBattery(nclients int) []FPProbe {
 			FPProbe{C: c, Msg: "DISCOVER", OptLen: 100, IHL: 5, Layout: "first"},
 			FPProbe{C: c, Msg: "REQOWN", OptLen: 100, IHL: 5, Layout: "pad"},
 			FPProbe{C: c, Msg: "REQOTHER", OptLen: 100, IHL: 5, Layout: "first"},
+			FPProbe{C: c, Msg: "REQOTHER", OptLen: 100, IHL: 5, Layout: "first", Ci: true}, // ciaddr = the held address, option 50 = another one
 			FPProbe{C: c, Msg: "DISCOVER", OptLen: 100, IHL: 5, Vlan: 1, Layout: "first"},
 			FPProbe{C: c, Msg: "DISCOVER", OptLen: 100, IHL: 5, Vlan: 2, Layout: "first"},
 			FPProbe{C: c, Msg: "DISCOVER", OptLen: 100, IHL: 6, Layout: "first"},
@@ -233,6 +235,9 @@ func (s *Sys) fpFrame(p FPProbe, own net.IP, xid uint32) []byte {
 		if own != nil {
 			copy(bootp[12:16], own.To4())
 		}
+	}
+	if p.Ci && own != nil {
+		copy(bootp[12:16], own.To4())
 	}
 	if p.Relay {
 		copy(bootp[24:28], net.IPv4(10, 9, 9, 1).To4())
